@@ -122,13 +122,13 @@ def run(ctx, chk):
     lock_discipline(ctx, chk)
     diagnostic_positions(ctx, chk, GA, E)
     # R3 driver
-    drv = ctx.program.by_name.get(("bin", "driver::driver::CMDDriver::run"))
+    drv = ctx.program.find("bin", "driver::driver::CMDDriver::run")
     if drv is None:
         chk.undecided_("C16.R3", "CMDDriver::run", "driver not found")
     else:
         driver_message_positions(ctx, chk, drv)
     # R4 preprocess
-    pp = ctx.program.by_name.get(("bin", "driver::preprocess::preprocess"))
+    pp = ctx.program.find("bin", "driver::preprocess::preprocess")
     if pp is None:
         chk.undecided_("C16.R4", "preprocess", "function not found")
     else:
